@@ -2,6 +2,7 @@ package main
 
 import (
 	"fmt"
+	"go/token"
 	"sort"
 	"strings"
 
@@ -442,6 +443,30 @@ func (cx *Ctx) checkRejectReasons(r *Report) {
 						break
 					}
 				}
+				if reason == "" {
+					// a helper that is handed parts of the request (`serviceProviderOfIssuer(ctx, req.Issuer)`): its
+					// conditions, read in terms of what every caller hands it
+					if alts := cx.atomsAtCallers(fn, p.Atoms); len(alts) > 0 {
+						all := true
+						name := ""
+						for _, atoms := range alts {
+							q := &APath{Path: p.Path, Atoms: atoms, Ret: p.Ret}
+							found := false
+							for _, rr := range rejectTable {
+								if rr.ok(q) {
+									found, name = true, rr.name
+									break
+								}
+							}
+							if !found {
+								all = false
+							}
+						}
+						if all {
+							reason = name
+						}
+					}
+				}
 				if reason == "" && cx.destinationReason(hk, p) {
 					reason = "Destination is not the location advertised for this service"
 				}
@@ -462,4 +487,35 @@ func (cx *Ctx) checkRejectReasons(r *Report) {
 	r.Extra["reject_subjects"] = nSubj
 	r.Extra["reject_paths"] = nPaths
 	r.Check(nSubj >= 8, "R-REJECT", "#subjects", "", fmt.Sprintf("%d refusing functions, %d refusing paths examined", nSubj, nPaths), fmt.Sprintf("only %d refusing functions found in the three validation chains", nSubj))
+}
+
+// atomsAtCallers: for an unexported module function that is only called statically, the atoms of one of its paths
+// re-rooted at the arguments of each call site (one alternative per call site): a test of parameter `issuer` is a test
+// of `req.Issuer` of the caller.
+func (cx *Ctx) atomsAtCallers(fn *ssa.Function, atoms []Atom) [][]Atom {
+	fx := cx.Fx
+	if fx.sitesOf == nil {
+		fx.buildCallSites()
+	}
+	if fn.Parent() != nil || fx.addrTaken[fn] || token.IsExported(fn.Name()) || len(fx.sitesOf[fn]) == 0 {
+		return nil
+	}
+	var roots []string
+	for _, p := range fn.Params {
+		fx.path(p)
+		roots = append(roots, fx.T(fx.fnTok(fn)+"/"+p.Name()))
+	}
+	var out [][]Atom
+	for _, c := range fx.sitesOf[fn] {
+		args := c.Common().Args
+		var alt []Atom
+		for _, a := range atoms {
+			na := a
+			na.TA = substParams(a.TA, roots, args, fx, true)
+			na.TB = substParams(a.TB, roots, args, fx, true)
+			alt = append(alt, na)
+		}
+		out = append(out, alt)
+	}
+	return out
 }
